@@ -498,11 +498,12 @@ inline bool to_um(const MM<PolyA> &m, UM<PolyA> &out)
 }
 
 // ------------------------------------------------------------------ guarded execution
-// Runs fn in a forked grandchild (wall limit, address-space limit).  Returns "" when fn returned,
-// else "hang" / "crash:<signal>" / "exit:<n>".  fn reports through Ctx (shared-memory counters and the
-// flushed record file), so verdicts computed inside survive.
+// Runs fn in a forked grandchild with a CPU-time limit (RLIMIT_CPU, so that machine load cannot fake a hang),
+// an address-space limit and a generous wall backstop.  Returns "" when fn returned, else "hang" (CPU limit
+// or wall backstop hit) / "crash:<signal>" / "exit:<n>".  fn reports through Ctx (shared-memory counters and
+// the flushed record file), so verdicts computed inside survive.
 template <class F>
-std::string guarded(Ctx &c, double limit_s, F fn)
+std::string guarded(Ctx &c, unsigned cpu_s, F fn)
 {
     fflush(c.out);
     pid_t p = fork();
@@ -512,6 +513,9 @@ std::string guarded(Ctx &c, double limit_s, F fn)
         setrlimit(RLIMIT_AS, &rl);
         rl.rlim_cur = rl.rlim_max = 0;
         setrlimit(RLIMIT_CORE, &rl);
+        rl.rlim_cur = cpu_s;
+        rl.rlim_max = cpu_s + 1;
+        setrlimit(RLIMIT_CPU, &rl);
         fn();
         fflush(c.out);
         _exit(0);
@@ -523,7 +527,7 @@ std::string guarded(Ctx &c, double limit_s, F fn)
         pid_t r = waitpid(p, &st, WNOHANG);
         if (r == p)
             break;
-        if (now() - t > limit_s) {
+        if (now() - t > 120.0 + 60.0 * cpu_s) {
             kill(p, SIGKILL);
             waitpid(p, &st, 0);
             return "hang";
@@ -531,6 +535,8 @@ std::string guarded(Ctx &c, double limit_s, F fn)
         if (++spin > 200)
             usleep(500);
     }
+    if (WIFSIGNALED(st) && (WTERMSIG(st) == SIGXCPU || WTERMSIG(st) == SIGKILL))
+        return "hang";
     if (WIFSIGNALED(st))
         return std::string("crash:") + strsignal(WTERMSIG(st));
     if (WIFEXITED(st) && WEXITSTATUS(st) != 0)
